@@ -83,9 +83,13 @@ def generate(rng, tier, seed):
             halves = [None] if fmt != 4 else [None, [10] * 16, [10] * (14 - ln) + [rng.randrange(16) for _ in range(16 - (14 - ln))],
                                               [10] + [rng.randrange(16) for _ in range(15)],
                                               # the free half is free: constant and degenerate values are as good as any
-                                              [0] * 16, [15] * 16, [0] * 15 + [1], [8] + [0] * 15, [5, 10] * 8]
+                                              [0] * 16, [15] * 16, [0] * 15 + [1], [8] + [0] * 15, [5, 10] * 8, "copy-of-first-half", "complement-of-first-half"]
             for hv in halves:
                 base = [fmt, ln] + body(rng, fmt, ln, total)
+                if hv == "copy-of-first-half":
+                    hv = list(base[:16])
+                elif hv == "complement-of-first-half":
+                    hv = [15 - x for x in base[:16]]
                 if hv is not None:
                     base[16:] = hv
                     c = Case(f"fmt{fmt}:well-formed-with-special-half", {"len": ln})
@@ -128,6 +132,17 @@ def generate(rng, tier, seed):
                 r = c.call("pinblock." + fn, *((blk, pan) if dst != 2 else (blk,)))
                 if (src == dst) != r.ok:
                     c.fail(f"format {src} block {'rejected' if src == dst else 'accepted'} by the format {dst} decoder")
+        yield c
+    # well-formed blocks under very long PANs (either side of the interpreter's 4300-digit limit for text-to-integer conversion)
+    for panlen in (100, 641, 4300, 4301, 5000, 20000):
+        pin, pan = digits(rng, rng.randrange(4, 13)), digits(rng, panlen)
+        c = Case("well-formed:long-pan", {"pan_len": panlen})
+        e0 = c.call("pinblock.encode_pinblock_iso_0", pin, pan)
+        e3 = c.call("pinblock.encode_pinblock_iso_3", pin, pan, with_entropy=True)
+        for fn, e in (("pinblock.decode_pinblock_iso_0", e0), ("pinblock.decode_pinblock_iso_3", e3)):
+            d = c.call(fn, e.value, pan)
+            if not d.ok or d.value != pin:
+                c.fail(f"a well-formed block under a PAN of {panlen} digits is not decoded to its PIN by {fn.split('.')[-1]}")
         yield c
     # PAN binding
     for _ in range(150 * reps):
